@@ -722,7 +722,7 @@ class Task:
                 raise RuntimeError("Parent must be from same WBS")
 
         if parent is not None:
-            if parent in self.all_children:
+            if parent is self or parent in self.all_children:
                 raise RuntimeError(f"Task {parent.id} is a child of task {self.id}. Can't make child "
                                    f"a parent of its parent")
 
@@ -786,7 +786,7 @@ class Task:
                 raise RuntimeError(f"Id intersection detected")
 
         for ch in value:
-            if self in ch.all_children:
+            if ch is self or self in ch.all_children:
                 raise RuntimeError(f"Task {self.id} is a child of {ch.id}. Can't make child a parent of its parent")
 
         for v in self.__children:
@@ -830,7 +830,7 @@ class Task:
                 raise RuntimeError("Can't set parent as predecessor")
 
         for v in value:
-            if self in v.all_predecessors:
+            if v is self or self in v.all_predecessors:
                 raise RuntimeError(f"{self.id} exists in {v.id} predecessors. Cyclic dependency")
 
         for v in self.__predecessors:
@@ -876,7 +876,7 @@ class Task:
                 raise RuntimeError("Can't set parent as successor")
 
         for v in value:
-            if self in v.all_successors:
+            if v is self or self in v.all_successors:
                 raise RuntimeError(f"{self.id} exists in {v.id} successors. Cyclic dependency")
 
         for v in self.__successors:
